@@ -5,6 +5,7 @@ Gen/C11_tables.v:
   c11_options          the add_argument calls for options, in registration order
   c11_argerror_caught  whether parse_known_args sits in a try with an
                        `except argparse.ArgumentError` handler (warn and go on)
+  c11_error_raises     whether parser.error is replaced by a function raising ArgumentError
   c11_catalogue        the harness' catalogue of unmodelled options (harness/c11_catalogue.py)
 Fail-closed: any add_argument shape, parser constructor keyword or positional
 the model does not cover raises (the check then reports a broken tie)."""
@@ -146,6 +147,27 @@ def generate(repo: Path):
                 raise ValueError(f"unexpected ArgumentError handler body {body}")
             caught = True
 
+    # 3b. parser.error replaced by a function that raises argparse.ArgumentError(None, message)
+    error_raises = False
+    assigns = [n for n in ast.walk(fn) if isinstance(n, ast.Assign) and len(n.targets) == 1
+               and isinstance(n.targets[0], ast.Attribute) and isinstance(n.targets[0].value, ast.Name)
+               and n.targets[0].value.id == pname]
+    for n in assigns:
+        if n.targets[0].attr != "error" or not isinstance(n.value, ast.Name):
+            raise ValueError(f"unexpected assignment to {pname}.{n.targets[0].attr}")
+        defs = [d for d in ast.walk(fn) if isinstance(d, ast.FunctionDef) and d.name == n.value.id]
+        if len(defs) != 1:
+            raise ValueError("replacement for parser.error not found")
+        d = defs[0]
+        if [a.arg for a in d.args.args] != ["message"] or d.args.vararg or d.args.kwarg or d.args.kwonlyargs \
+                or len(d.body) != 1 or ast.unparse(d.body[0]) != "raise argparse.ArgumentError(None, message)":
+            raise ValueError("replacement for parser.error does not simply raise argparse.ArgumentError(None, message)")
+        if n.lineno < ctor.lineno or n.lineno > call.lineno:
+            raise ValueError("parser.error must be replaced between construction and parse_known_args")
+        error_raises = True
+    if len(assigns) > 1:
+        raise ValueError("parser.error assigned more than once")
+
     # 4. the catalogue of unmodelled options used by the harness
     cat_src = (HERE.parent.parent / "harness" / "c11_catalogue.py").read_text()
     cat = None
@@ -171,6 +193,9 @@ def generate(repo: Path):
         "",
         "(* parse_known_args is wrapped in try/except argparse.ArgumentError (warn, keep what was parsed) *)",
         "Definition c11_argerror_caught : bool := %s." % ("true" if caught else "false"),
+        "",
+        "(* parser.error raises argparse.ArgumentError instead of exiting *)",
+        "Definition c11_error_raises : bool := %s." % ("true" if error_raises else "false"),
         "",
         "(* harness/c11_catalogue.py *)",
         "Definition c11_catalogue : list (list string) :=",
